@@ -406,6 +406,143 @@ fn stream_tree<D: ByteDev>(ctx: &mut Ctx, label: &str, max: usize) {
     ctx.part(label, json!({"engine": "B stream tree", "max_stream_length": max, "stream_positions_checked": total, "violating_positions": nbad, "chunks_rerun_with_panic_guards": slow}));
 }
 
+// ---- "after a prior sequence": every complete sequence, then every short continuation --------------------------
+// The closed BFS covers all histories as long as the decoder's state space is small. A change that gives the decoder
+// a large hidden state (a sequence buffer, a bitmap of held keys) pushes the search into its state cap, and the stream
+// tree from a fresh decoder only reaches length 3-4. This sweep starts deeper: it first plays one complete sequence
+// (every byte string of <= 3 bytes that takes the reference automaton from its initial context back to it: a make or
+// break code with any prefix, known or unknown, or a rejected sequence), optionally two of them, and then every
+// continuation of <= 2 bytes (plus E0/E1 F0 xx for Set 2). C01/C02 judge the continuation against R-AUTO from its
+// initial context, C07 against a fresh real decoder.
+
+/// all byte strings of <= 3 bytes that take R-AUTO from the initial context back to it (and not before)
+pub fn prior_sequences(set: u8) -> Vec<Vec<u8>> {
+    fn rec(set: u8, c: RCtx, path: &mut Vec<u8>, out: &mut Vec<Vec<u8>>) {
+        for b in 0..=255u8 {
+            let (_, nc) = ref_step(set, c, b);
+            path.push(b);
+            if nc == CTX2_INIT {
+                out.push(path.clone());
+            } else if path.len() < 3 {
+                rec(set, nc, path, out);
+            }
+            path.pop();
+        }
+    }
+    let mut out = vec![];
+    rec(set, CTX2_INIT, &mut vec![], &mut out);
+    out
+}
+
+/// the priors whose last byte is one of a few representative codes (modifiers, fake shifts, Pause/PrintScreen/SysRq
+/// parts, a twin-key code, a letter, the status bytes, an unassigned code)
+pub fn reduced_priors(set: u8) -> Vec<Vec<u8>> {
+    let reps: &[u8] = if set == 2 {
+        &[0x12, 0x14, 0x77, 0x7C, 0x75, 0x1C, 0x11, 0x00, 0xAA, 0x83, 0xFF]
+    } else {
+        &[0x2A, 0xAA, 0x1D, 0x9D, 0x45, 0xC5, 0x37, 0xB7, 0x48, 0xC8, 0x1E, 0x9E, 0x54, 0xD4, 0x38, 0xB8, 0x00, 0xFF]
+    };
+    prior_sequences(set).into_iter().filter(|p| reps.contains(p.last().unwrap())).collect()
+}
+
+/// mode 0: continuation judged against R-AUTO (C01/C02); mode 1: against a fresh real decoder (C07)
+fn after_prior<D: ByteDev>(ctx: &mut Ctx, label: &str, mode: u8, chain2: bool, max_chain: u32) {
+    let jobs: Vec<Vec<u8>> = if chain2 {
+        let r = reduced_priors(D::SET);
+        let mut v = vec![];
+        for a in &r {
+            for b in &r {
+                let mut x = a.clone();
+                x.extend(b);
+                v.push(x);
+            }
+        }
+        v
+    } else {
+        prior_sequences(D::SET)
+    };
+    let results = par_chunks(jobs.len(), |ji| {
+        let prior = &jobs[ji];
+        let run = |guard: bool| -> (u64, Vec<TreeBad>) {
+            let mut n = 0u64;
+            let mut nbad = 0u64;
+            let mut bads: Vec<TreeBad> = vec![];
+            let mut d = D::fresh();
+            for b in prior {
+                let r = if guard { feed_guarded(&mut d, *b) } else { Ok(d.feed(*b)) };
+                if r.is_err() {
+                    return (n, bads); // a panic inside the prior itself is the plain trees' / C08's business
+                }
+            }
+            let mut path = prior.clone();
+            let exts: &[[u8; 2]] = if D::SET == 2 { &[[0xE0, 0xF0], [0xE1, 0xF0]] } else { &[] };
+            if mode == 0 {
+                tree_rec(&d, CTX2_INIT, 0, 2, None, guard, &mut path, &mut n, &mut bads, &mut nbad);
+                for e in exts {
+                    let mut d2 = d.clone();
+                    let mut c = CTX2_INIT;
+                    let mut ok = true;
+                    for b in e {
+                        let r = if guard { feed_guarded(&mut d2, *b) } else { Ok(d2.feed(*b)) };
+                        ok &= r.is_ok();
+                        c = ref_step(D::SET, c, *b).1;
+                        path.push(*b);
+                    }
+                    if ok {
+                        tree_rec(&d2, c, 0, 1, None, guard, &mut path, &mut n, &mut bads, &mut nbad);
+                    }
+                    path.truncate(prior.len());
+                }
+            } else {
+                let sh = vec![(prior.len(), D::fresh())];
+                c07_tree_rec(&d, &sh, 0, max_chain, 0, 2, None, guard, &mut path, &mut n, &mut bads);
+                for e in exts {
+                    let mut d2 = d.clone();
+                    let mut s2 = D::fresh();
+                    let mut ok = true;
+                    for b in e {
+                        let r = if guard { feed_guarded(&mut d2, *b) } else { Ok(d2.feed(*b)) };
+                        let r2 = if guard { feed_guarded(&mut s2, *b) } else { Ok(s2.feed(*b)) };
+                        ok &= r.is_ok() && r2.is_ok() && r == r2; // a difference here was already reported by the depth-2 part
+                        path.push(*b);
+                    }
+                    if ok {
+                        c07_tree_rec(&d2, &[(prior.len(), s2)], 2, max_chain, 0, 1, None, guard, &mut path, &mut n, &mut bads);
+                    }
+                    path.truncate(prior.len());
+                }
+            }
+            bads.truncate(4);
+            (n, bads)
+        };
+        match catch_unwind(AssertUnwindSafe(|| run(false))) {
+            Ok(r) => (r, false),
+            Err(_) => (run(true), true),
+        }
+    });
+    let mut total = 0u64;
+    let mut nb = 0usize;
+    let mut slow = 0;
+    for ((n, bads), was_slow) in results {
+        total += n;
+        slow += was_slow as u32;
+        for b in bads {
+            nb += 1;
+            let ops = b.path.iter().map(|x| Op::Byte(*x)).collect();
+            ctx.violation(&b.key, &b.text, Replay::one(&D::component(), ops, &b.expected, Some(b.observed)));
+        }
+    }
+    ctx.evaluations += total;
+    ctx.traces_validated += total;
+    ctx.part(
+        label,
+        json!({"engine": "B stream tree started after complete prior sequences", "prior_sequences": jobs.len(), "priors_chained": if chain2 { 2 } else { 1 },
+               "oracle": if mode == 0 { "R-AUTO from its initial context" } else { "a fresh real decoder" },
+               "continuation": if D::SET == 2 { "every stream of <= 2 bytes, plus E0 F0 xx and E1 F0 xx" } else { "every stream of <= 2 bytes" },
+               "stream_positions_checked": total, "violations_recorded": nb, "jobs_rerun_with_panic_guards": slow}),
+    );
+}
+
 // ---- pumped streams: u = w^k for every word w of length <= 2 (<= 3 thorough), k up to `reps` ------------------
 // A closed BFS covers unbounded histories only as long as the state space stays small; state that grows with
 // the history (a counter, a log, a cache) pushes the interesting states beyond any state cap. Repeating every
@@ -644,6 +781,11 @@ pub fn c01(ctx: &mut Ctx) -> (u64, String) {
     stream_tree::<ScancodeSet2>(ctx, "tree:ScancodeSet2", depth);
     stream_tree::<Keyboard<Echo, ScancodeSet2>>(ctx, "tree:Keyboard::add_byte(Set2)", if ctx.thorough() { 3 } else { 2 });
     crate::props::tlaconf::set2_conformance(ctx, true);
+    after_prior::<ScancodeSet2>(ctx, "after-prior:ScancodeSet2", 0, false, 2);
+    if ctx.thorough() {
+        after_prior::<ScancodeSet2>(ctx, "after-two-priors:ScancodeSet2", 0, true, 2);
+        after_prior::<KbLoop<ScancodeSet2>>(ctx, "after-prior:Keyboard add_byte+process_keyevent loop (Set2)", 0, false, 2);
+    }
     pump_report::<ScancodeSet2>(ctx, "pump:ScancodeSet2", 2, 300, 0);
     if ctx.thorough() {
         pump_report::<ScancodeSet2>(ctx, "pump:ScancodeSet2 (3-byte words)", 3, 12, 0);
@@ -675,6 +817,11 @@ pub fn c02(ctx: &mut Ctx) -> (u64, String) {
     stream_tree::<ScancodeSet1>(ctx, "tree:ScancodeSet1", depth);
     stream_tree::<Keyboard<Echo, ScancodeSet1>>(ctx, "tree:Keyboard::add_byte(Set1)", if ctx.thorough() { 3 } else { 2 });
     crate::props::tlaconf::set1_conformance(ctx, true);
+    after_prior::<ScancodeSet1>(ctx, "after-prior:ScancodeSet1", 0, false, 1);
+    if ctx.thorough() {
+        after_prior::<ScancodeSet1>(ctx, "after-two-priors:ScancodeSet1", 0, true, 1);
+        after_prior::<KbLoop<ScancodeSet1>>(ctx, "after-prior:Keyboard add_byte+process_keyevent loop (Set1)", 0, false, 1);
+    }
     pump_report::<ScancodeSet1>(ctx, "pump:ScancodeSet1", 2, 300, 0);
     if ctx.thorough() {
         pump_report::<ScancodeSet1>(ctx, "pump:ScancodeSet1 (3-byte words)", 3, 12, 0);
@@ -1046,6 +1193,12 @@ pub fn c07(ctx: &mut Ctx) -> (u64, String) {
     c07_tree::<ScancodeSet1>(ctx, "difftree:ScancodeSet1", depth, 1);
     crate::props::tlaconf::set2_conformance(ctx, false);
     crate::props::tlaconf::set1_conformance(ctx, false);
+    after_prior::<ScancodeSet2>(ctx, "after-prior-resync:ScancodeSet2", 1, false, 2);
+    after_prior::<ScancodeSet1>(ctx, "after-prior-resync:ScancodeSet1", 1, false, 1);
+    if ctx.thorough() {
+        after_prior::<ScancodeSet2>(ctx, "after-two-priors-resync:ScancodeSet2", 1, true, 2);
+        after_prior::<ScancodeSet1>(ctx, "after-two-priors-resync:ScancodeSet1", 1, true, 1);
+    }
     pump_report::<ScancodeSet2>(ctx, "pump-resync:ScancodeSet2", 2, 300, 1);
     pump_report::<ScancodeSet1>(ctx, "pump-resync:ScancodeSet1", 2, 300, 1);
     if ctx.thorough() {
